@@ -54,9 +54,10 @@ impl C13 {
         };
         // surrounding layout: areas where the heap is first tried
         let mut layout = Vec::new();
-        for _ in 0..rng.below(4) {
-            let at = *rng.pick(&[0x1000u64, 0x2000, 0x3000, 0x1800, 0x4000, 0x800, 0x10000]);
-            let len = *rng.pick(&[0x10u64, 0x800, 0x1000, 0x2000, 0x8000]);
+        for _ in 0..rng.below(6) {
+            // page starts the handler may try first, the last byte of such a page, and addresses around them
+            let at = *rng.pick(&[0x1000u64, 0x2000, 0x3000, 0x1800, 0x4000, 0x800, 0x10000, 0x1fff, 0x2fff, 0x3fff, 0x4fff, 0x8fff, 0x2001, 0x1ffe]);
+            let len = *rng.pick(&[0x10u64, 0x800, 0x1000, 0x2000, 0x8000, 0, 0, 1, 2]);
             if call(|| ax.mem_init_zero(at, len)).is_ok() {
                 layout.push(format!("[{:#x},+{:#x})", at, len));
             }
